@@ -530,7 +530,11 @@ func gen(tier string, emit0 func(engine.Case) bool) {
 		return
 	}
 	// 7. two-step label sequences
-	genLabelPairs(thorough, emit)
+	if !genLabelPairs(thorough, emit) {
+		return
+	}
+	// 8. two-step generation histories (history.go)
+	genHistories(thorough, emit)
 }
 
 // ---- 6. sizes -----------------------------------------------------------
